@@ -106,4 +106,54 @@ theorem match_sound (e : Env) (D : Dir e) {r : Ir} {n : Nat} (hs : Seg e.code r 
     rw [hkt] at ht
     exact ⟨s0, h1, hbd, h3, ht⟩
 
+/-- the same for a run that ENTERS the code at any valid state (verification starts at the atom's instruction): whatever can still be accepted from a reachable state extends
+    to a match of the expression from the start position of the run (in scan mode: from SOME start position `s0`) -/
+theorem reach_lang_at (e : Env) (D : Dir e) {r : Ir} {n : Nat} (hs : Seg e.code r 0 n) (hmatch : u8 e.code n = OP_MATCH)
+    (hstart : ValidF r 0 0 { ip := e.entry } .run ∨ AtEnd n 0 { ip := e.entry } .run) {f : Fiber} {m : Mode} {bm : Nat} (hr : Reach e f m bm) :
+    (ValidF r 0 0 f m ∨ AtEnd n 0 f m) ∧ D.ok bm ∧
+      ∃ s0, s0 ≤ bm ∧ (e.fl.scan = false → s0 = 0) ∧
+        ∀ q', langF D.L r 0 0 Keps f m bm q' →
+          lang D.L r 0 0 Keps e.entry (-1) [] .run s0 q' := by
+  induction hr with
+  | start =>
+    exact ⟨hstart, D.ok0, 0, Nat.le_refl _, fun _ => rfl, fun q' hq => hq⟩
+  | scanStart bm hsc hbm =>
+    exact ⟨hstart, D.okScan hsc hbm, bm, Nat.le_refl _, fun hh => by rw [hsc] at hh; simp at hh, fun q' hq => hq⟩
+  | @sync f g m m' bm _ hmw hss ih =>
+    obtain ⟨hpos, hb, s0, h1, h3, hl⟩ := ih
+    obtain ⟨r1, r2⟩ := sstar_lang e D hs hmatch hss m hmw hpos
+    exact ⟨r1, hb, s0, h1, h3, fun q' hq => hl q' (r2 _ q' hq)⟩
+  | @zw f bm _ hnc hnm hz ih =>
+    obtain ⟨hpos, hb, s0, h1, h3, hl⟩ := ih
+    rcases hpos with hst | hend
+    · obtain ⟨_, _, _, _, e5⟩ := seg_step e D hs 0 Keps f .run hst
+      obtain ⟨g1, g2⟩ := e5 bm hb hnc hz
+      exact ⟨g1, hb, s0, h1, h3, fun q' hq => hl q' (g2 q' hq)⟩
+    · exact absurd (by rw [hend.1]; exact hmatch) hnm
+  | @cons f m bm _ hc hok hany hnp ih =>
+    obtain ⟨hpos, hb, s0, h1, h3, hl⟩ := ih
+    rcases hpos with hst | hend
+    · obtain ⟨_, _, e3, _, _⟩ := seg_step e D hs 0 Keps f m hst
+      obtain ⟨g1, g2⟩ := e3 bm hb hc hok hany hnp
+      exact ⟨g1, D.okCons hb hok, s0, by omega, h3, fun q' hq => hl q' (g2 q' hq)⟩
+    · exfalso
+      rw [hend.1, hmatch] at hc
+      simp [isConsuming, OP_MATCH, OP_ANY, OP_REPEAT_ANY_GREEDY, OP_REPEAT_ANY_UNGREEDY, OP_LITERAL, OP_NOT_LITERAL, OP_MASKED_LITERAL,
+        OP_MASKED_NOT_LITERAL, OP_CLASS, OP_WORD_CHAR, OP_NON_WORD_CHAR, OP_SPACE, OP_NON_SPACE, OP_DIGIT, OP_NON_DIGIT] at hc
+
+
+/-- a run entering at `e.entry`: a reachable fiber at RE_OPCODE_MATCH after `L` matched bytes witnesses that the language of
+    the entry state accepts from `s0` to `L` matched bytes -/
+theorem match_lang_at (e : Env) (D : Dir e) {r : Ir} {n : Nat} (hs : Seg e.code r 0 n) (hmatch : u8 e.code n = OP_MATCH)
+    (hstart : ValidF r 0 0 { ip := e.entry } .run ∨ AtEnd n 0 { ip := e.entry } .run)
+    {f : Fiber} {m : Mode} {L : Nat} (hr : Reach e f m L) (hm : u8 e.code f.ip = OP_MATCH) :
+    ∃ s0, s0 ≤ L ∧ D.ok L ∧ (e.fl.scan = false → s0 = 0) ∧ lang D.L r 0 0 Keps e.entry (-1) [] .run s0 L := by
+  obtain ⟨hpos, hbd, s0, h1, h3, hl⟩ := reach_lang_at e D hs hmatch hstart hr
+  rcases hpos with hst | hend
+  · exact absurd hm (start_not_match e D hs hst)
+  · have hk : langF D.L r 0 0 Keps f m L L := by
+      simp only [langF]; rw [hend.1, lang_end _ hs]; rfl
+    exact ⟨s0, h1, hbd, h3, hl _ hk⟩
+
+
 end YaraModel.ReEmit
